@@ -356,4 +356,87 @@ theorem prog_backtest_causal_via_generic (cfg : Cfg K) (tr : ProgTree K) {t : Na
 example : Causal 2 (treeRun cfgE treeParE []) ∧ P04.RunPublic cfgE (treeRun cfgE treeParE []) :=
   treeRun_causal_public_via_generic cfgE treeParE [] 2
 
+/-! ### (6) programs driven by frames: no look-ahead in the price data **and** in the supplied frames
+
+    `SelectWhere(signal)`, `SetStat(stat, lag)`, `WeighTarget(weights)` read a frame the user supplies at `target.now` (or
+    `now − lag`); the scheduler's answers and the windows of `SelectHasData` / `SelectMomentum` are per row as well.  In the
+    model all of that travels with the program, one entry per row of the index.  `truncProg t p` cuts every such list after
+    row `t`; a tree of programs is cut node by node (`truncX`).  Two programs (trees) whose cuts coincide are two sets of
+    frames that agree on every row `≤ t` and are arbitrary afterwards. -/
+
+/-- **a stack at row `d ≤ t` reads the rows it carries up to `t` only** -/
+theorem progRunX_rows (cfg : Cfg K) (p : ProgX K) (path : List Nat) {d t : Nat} (h : d ≤ t) (w : World K) :
+    progRunX cfg (PProgF.truncProg t p) path d w = progRunX cfg p path d w :=
+  PProgF.progRunX_truncProg p path h w
+
+/-- **two programs whose supplied rows agree up to the cut**: `p'` on the price data truncated after `t` does at every date
+    `d ≤ t` what `p` does on the full data (C04's `CausalPair`) -/
+theorem progRunX_causal_rows (cfg : Cfg K) {p p' : ProgX K} {t : Nat} (hpp : PProgF.truncProg t p = PProgF.truncProg t p')
+    (path : List Nat) : CausalPair t (progRunX cfg p path) (progRunX cfg p' path) := fun d hd w hw => by
+  rw [← PProgF.progRunX_rows_agree hpp path hd]
+  exact progRunX_causal cfg p path t d hd w hw
+
+/-- … and so for trees of programs, node by node -/
+theorem progx_tree_causal_rows (cfg : Cfg K) {x x' : XTree K} {t : Nat} (hxx : truncX t x = truncX t x')
+    (path : List Nat) : CausalPair t (treeRunG (embedX cfg x) path) (treeRunG (embedX cfg x') path) := fun d hd w hw => by
+  rw [← treeRunG_rows_agree hxx path hd]
+  exact progx_treeRun_causal cfg _ (everyNode_embedX x) path t d hd w hw
+
+/-- **No look-ahead of whole backtests of frame-driven programs.**  Two trees of extended programs whose per-row data
+    (scheduler answers, windows, signal / statistic / target-weight rows) agree on every row `≤ t`, two price data sets that
+    agree on every row `≤ t`; dates `d0 :: (pre ++ post)` with `d0`, `pre` all `≤ t` and `post` all `> t`.  If both backtests
+    succeed, every recorded entry of every node at every index `j ≤ t` is the same in both results, and all rows have the
+    same lengths. -/
+theorem progx_backtest_causal_rows (cfg : Cfg K) {x x' : XTree K} {t : Nat} (hxx : truncX t x = truncX t x')
+    {w w' : World K} (hw : w.trunc t = w'.trunc t) (hz : HedgeZero w.root) (capital : K) (d0 : Nat) (hd0 : d0 ≤ t)
+    (pre post : List Nat) (hpre : ∀ d ∈ pre, d ≤ t) (hpost : ∀ d ∈ post, t < d) {r r' : World K}
+    (h : btRun cfg (treeRunG (embedX cfg x) []) capital (d0 :: (pre ++ post)) w = .ok r)
+    (h' : btRun cfg (treeRunG (embedX cfg x') []) capital (d0 :: (pre ++ post)) w' = .ok r') :
+    (∀ j, j ≤ t → rowsAt j r.root = rowsAt j r'.root) ∧ rowLens r.root = rowLens r'.root := by
+  simp only [btRun] at h h'
+  obtain ⟨w1, h1, h⟩ := bind_eq_ok h
+  obtain ⟨w2, h2, h⟩ := bind_eq_ok h
+  obtain ⟨w1', h1', h'⟩ := bind_eq_ok h'
+  obtain ⟨w2', h2', h'⟩ := bind_eq_ok h'
+  have e1 : w1.trunc t = w1'.trunc t := by
+    refine ok_of_map_eq h1 h1' ?_
+    rw [← opAdjust_root_trunc, ← opAdjust_root_trunc, hw]
+  have e2 : w2.trunc t = w2'.trunc t := by
+    refine ok_of_map_eq h2 h2' ?_
+    rw [← updRoot_trunc cfg hd0, ← updRoot_trunc cfg hd0, e1]
+  have hz1 : HedgeZero w1.root := RunC.hedgeZero (cfg := cfg) (wok_true w) (.single (.adjust _ _ _ _ h1)) hz
+  have hz2 : HedgeZero w2.root := updRoot_hedgeZero h2 hz1
+  exact backtest_causal_pair (progx_tree_causal_rows cfg hxx [])
+    (progx_treeRun_causal cfg _ (everyNode_embedX x') [] t)
+    (progx_treeRun_public cfg _ (everyNode_embedX x) []) (progx_treeRun_public cfg _ (everyNode_embedX x') [])
+    e2 hz2 pre post hpre hpost h h'
+
+/-- a signal frame, a statistic frame and a target-weight frame that differ after row 2 only -/
+def progRowsA : ProgX Rat :=
+  { gate := [false, true, true, true], ucols := [0, 1, 2],
+    sels := [.all false false, .where_ [0, 1, 2] [none, some [some true, some true, some false], none, some [some true, none, none]] false false,
+      .statN [0, 1, 2] [none, some [some 1, some 2, some 3], some [some 3, some 2, some 1], some [some 5, some 5, none]] (.int 1) false false true],
+    wgh := .equally, post := [.closeDead] }
+def progRowsB : ProgX Rat :=
+  { progRowsA with
+    gate := [false, true, true, false, true],
+    sels := [.all false false, .where_ [0, 1, 2] [none, some [some true, some true, some false], none, some [none, some true, none]] false false,
+      .statN [0, 1, 2] [none, some [some 1, some 2, some 3], some [some 3, some 2, some 1], none] (.int 1) false false true] }
+
+/-- the two programs carry the same rows up to row 2; on rows 0-2 they do the same on data sets A and B (which agree up to
+    row 2), and whole backtests of the two over data sets A and B record the same for rows 0, 1, 2 -/
+example : PProgF.truncProg 2 progRowsA = PProgF.truncProg 2 progRowsB ∧
+    CausalPair 2 (progRunX cfgE progRowsA []) (progRunX cfgE progRowsB []) ∧
+    (∀ r r', btRun cfgE (treeRunG (embedX cfgE (.node progRowsA [none, none, none])) []) 1000 (0 :: ([1, 2] ++ [3])) wXA = .ok r →
+      btRun cfgE (treeRunG (embedX cfgE (.node progRowsB [none, none, none])) []) 1000 (0 :: ([1, 2] ++ [3])) wXB = .ok r' →
+      ∀ j, j ≤ 2 → rowsAt j r.root = rowsAt j r'.root) ∧
+    (btRun cfgE (treeRunG (embedX cfgE (.node progRowsA [none, none, none])) []) 1000 [0, 1, 2, 3] wXA).toOption.isSome = true ∧
+    (btRun cfgE (treeRunG (embedX cfgE (.node progRowsB [none, none, none])) []) 1000 [0, 1, 2, 3] wXB).toOption.isSome = true := by
+  have hpp : PProgF.truncProg 2 progRowsA = PProgF.truncProg 2 progRowsB := rfl
+  have hxx : truncX 2 (XTree.node progRowsA [none, none, none]) = truncX 2 (XTree.node progRowsB [none, none, none]) := by
+    simp only [truncX_node, truncXL_none, truncXL_nil, hpp]
+  refine ⟨hpp, progRunX_causal_rows cfgE hpp [], fun r r' h h' => ?_, by decide +kernel, by decide +kernel⟩
+  exact (progx_backtest_causal_rows cfgE hxx (w := wXA) (w' := wXB) rfl wXA_hedgeZero 1000 0 (by decide) [1, 2] [3]
+    (by decide) (by decide) h h').1
+
 end Bt.C04
